@@ -9,6 +9,7 @@ import (
 	"encoding/json"
 	"fmt"
 	"sort"
+	"strconv"
 	"strings"
 
 	"github.com/bmeg/grip/gdbi"
@@ -30,9 +31,21 @@ func (e Elem) String() string {
 		d = string(b)
 	}
 	if e.Edge {
-		return fmt.Sprintf("E(%s:%s->%s:%s:%s)", e.ID, e.From, e.To, e.Label, d)
+		return fmt.Sprintf("E(%s:%s->%s:%s:%s)", q(e.ID), q(e.From), q(e.To), q(e.Label), d)
 	}
-	return fmt.Sprintf("V(%s:%s:%s)", e.ID, e.Label, d)
+	return fmt.Sprintf("V(%s:%s:%s)", q(e.ID), q(e.Label), d)
+}
+
+// q leaves plain tokens alone and quotes everything else, so that the
+// canonical rendering stays unambiguous for hostile identifiers (C16).
+func q(s string) string {
+	for i := 0; i < len(s); i++ {
+		c := s[i]
+		if !(c >= 'a' && c <= 'z' || c >= 'A' && c <= 'Z' || c >= '0' && c <= '9' || c == '_') {
+			return strconv.Quote(s)
+		}
+	}
+	return s
 }
 
 // Canon is the canonical observation string of an element.
@@ -223,8 +236,15 @@ func has(l []string, s string) bool {
 }
 
 func joinSorted(s []string) string {
-	sort.Strings(s)
-	return "[" + strings.Join(s, " ") + "]"
+	o := make([]string, len(s))
+	for i, x := range s {
+		o[i] = x
+		if x == "" || strings.ContainsAny(x, " []") && !strings.HasPrefix(x, "V(") && !strings.HasPrefix(x, "E(") {
+			o[i] = strconv.Quote(x)
+		}
+	}
+	sort.Strings(o)
+	return "[" + strings.Join(o, " ") + "]"
 }
 
 // Observe computes the battery on the model.
